@@ -228,5 +228,8 @@ def run(chk, ctx) -> None:
         def floor(self, rule, n):
             return None
     _divmod(_Split(chk), ctx)
+    from .cover import board_rows, showdown_offer_flag
+    board_rows(chk, ctx, 'C14.indexing')
+    showdown_offer_flag(chk, ctx)
     chk.floor('C14.once', 7)
     chk.floor('C14.count_checked', 3)
